@@ -23,10 +23,12 @@ import time
 
 ROOT = os.path.dirname(os.path.dirname(os.path.abspath(__file__)))
 SPEC = os.path.join(ROOT, "spec")
-WORK = os.path.join(ROOT, "work")
-HARNESS = os.path.join(ROOT, "harness")
-EVID = os.path.join(ROOT, "evidence")
-REPLAYS = os.path.join(ROOT, "replays")
+# (the three overrides exist only for scripts/seedmatrix.py, which measures the checks against seeded
+#  changes in a scratch copy while the registered commands keep using /verif and /repo)
+WORK = os.environ.get("VERIF_WORK", os.path.join(ROOT, "work"))
+HARNESS = os.environ.get("VERIF_HARNESS", os.path.join(ROOT, "harness"))
+EVID = os.environ.get("VERIF_EVID", os.path.join(ROOT, "evidence"))
+REPLAYS = os.environ.get("VERIF_REPLAYS", os.path.join(ROOT, "replays"))
 KNOWN = os.path.join(ROOT, "known_findings.json")
 SEED = int(os.environ.get("VERIF_SEED", "0") or 0)
 TLC_WORKERS = os.environ.get("VERIF_TLC_WORKERS", "12")
@@ -232,21 +234,23 @@ def record_and_validate(run, driver, trace_module, name, events, tables, mix="al
     return ok
 
 
-def selftest_trace(driver, trace_module, kind_of_event="Verify"):
+def selftest_trace(driver, trace_module, kind_of_event="Verify", flip=("Ok", "Err")):
     """negative controls (DESIGN.md 3.5): a corrupted log must be rejected at the corrupted line"""
-    tp, n, _ = record(driver, "selftest_" + driver, 150)
+    tp, n, _ = record(driver, "selftest_" + driver, 300)
     ok, at, ev, _, _ = validate_trace(trace_module, tp, "selftest")
     if not ok:
         raise ToolError("self-test: pristine trace rejected at %d: %s" % (at, ev))
     evs = [json.loads(x) for x in open(tp)]
     i = next(i for i, e in enumerate(evs) if e["ev"] == kind_of_event)
     a = [dict(e) for e in evs]
-    a[i]["res"] = "Ok" if a[i]["res"] == "Err" else "Err"
+    a[i]["res"] = flip[0] if a[i]["res"] != flip[0] else flip[1]
     outs = [i for i, e in enumerate(evs) if e.get("out") and e["ev"] == "Sign"]
     j = next(j for j in outs if evs[j]["out"] != evs[outs[0]]["out"])
     b = [dict(e) for e in evs]
     b[j]["out"] = b[outs[0]]["out"]
-    c = [e for k, e in enumerate(evs) if k != outs[0]]
+    # drop an event whose output later events refer to: the first public-key derivation
+    ipk = next(k for k, e in enumerate(evs) if e["ev"] == "Pk")
+    c = [e for k, e in enumerate(evs) if k != ipk]
     for label, t, where in (("flipped verdict", a, i + 1), ("merged value-ids", b, j + 1), ("dropped event", c, None)):
         fp = os.path.join(WORK, "selftest_bad.ndjson")
         with open(fp, "w") as f:
@@ -440,6 +444,7 @@ def setup():
     export_tables()
     log("setup: negative controls for trace validation")
     selftest_trace("signet", "Trace_SigNet")
+    selftest_trace("proto", "Trace_Proto", kind_of_event="TLDecrypt", flip=("Some", "None"))
     log("setup: done in %.0fs" % (time.time() - t0))
     return 0
 
